@@ -386,6 +386,7 @@ Section Run.
                  let continue (r : list N) (s : list sval) := loop g' r s n' in
                  match o with
                  | OP_NOP => continue r stack
+                 | OP_ADD_NUM => continue r stack      (* switchthread.go: "nothing to do" — the operand stays where it is *)
                  | OP_RETURN => let^ (v, _) := pop_val stack in ret v
                  | OP_CONST =>
                      let^ (c, r1) := read_const r in
